@@ -410,7 +410,8 @@ fn exhaustive(idbase: &str, cnf: &Cnf, n: u32, depth: usize, level: u8, env: &mu
     let (n_now, cur) = saved.unwrap_or((n, Vec::new()));
     let al = alphabet(n_now, &cur, rng, level);
     if nocache {
-        // no clause cache at all (finding K14): a single case with every command once
+        // no clause cache at all although the model was loaded from a CNF (K14, repaired by F9:
+        // cannot happen any more; kept as a detector): a single case with every command once
         let mut s = header(&format!("{}-nocache", idbase), &format!("exhaustive depth=1 letters={}", al.len()), n, cnf);
         s.push_str(&rec0);
         dfs(&d, 1, 1, &al, env, &mut s);
@@ -500,7 +501,8 @@ pub fn run(_kind: &str, ctx: &Ctx, out: &mut dyn Write) {
     // ---- start CNFs on <= 3 variables
     // (a) hand-picked: the F8 example, units (simplify_clauses changes the stored set), a
     //     clause subsumed by a unit, duplicates / permuted literals in the file, a tautology next
-    //     to a real clause, free features, an empty stored set (K14)
+    //     to a real clause, free features, an empty stored set (no clause line / a tautology only:
+    //     ordinary starts since repair F9, `p cnf n 0` is saved and updates start from the empty set)
     let fixed: Vec<(Cnf, u32)> = vec![
         (vec![vec![1, 2], vec![-1, 3]], 3),
         (vec![vec![1], vec![1, 2], vec![-1, 3]], 3),
@@ -518,10 +520,8 @@ pub fn run(_kind: &str, ctx: &Ctx, out: &mut dyn Write) {
         let rows = 1u32 << n;
         let all: u64 = if rows == 64 { u64::MAX } else { (1u64 << rows) - 1 };
         for tt in 1..=all {
-            let cnf = cnf_of_table(tt, n);
-            if !cnf.is_empty() {
-                tables.push((cnf, n));
-            }
+            // the constant-true function is the CNF without clauses (empty stored set)
+            tables.push((cnf_of_table(tt, n), n));
         }
     }
     let mut k = 0;
@@ -568,9 +568,13 @@ pub fn run(_kind: &str, ctx: &Ctx, out: &mut dyn Write) {
     while made < count && tries < 20 * count + 100 {
         tries += 1;
         let n = rng.range(2, maxn) as u32;
-        let ncl = rng.range(1, (n as i64) + 2) as usize;
-        let cnf: Cnf = random_cnf(&mut rng, n, ncl, 3).into_iter().filter(|c| !c.is_empty()).collect();
-        if cnf.is_empty() || !satisfiable(&cnf, n) {
+        // one start in sixteen has no clause at all (or only a tautology): empty stored set
+        let ncl = if rng.chance(1, 16) { 0 } else { rng.range(1, (n as i64) + 2) as usize };
+        let mut cnf: Cnf = random_cnf(&mut rng, n, ncl, 3).into_iter().filter(|c| !c.is_empty()).collect();
+        if ncl == 0 && rng.coin() {
+            cnf.push(vec![n as i32, -(n as i32)]);
+        }
+        if (cnf.is_empty() && ncl != 0) || !satisfiable(&cnf, n) {
             continue;
         }
         let len = rng.range(6, if quick { 14 } else { 30 }) as usize;
